@@ -7,7 +7,6 @@ import sys
 import warnings
 from collections import abc
 from dataclasses import MISSING, Field
-from dataclasses import astuple as _get_arguments
 from dataclasses import dataclass as _create_dataclass
 from dataclasses import field as _create_field
 from dataclasses import fields as _get_fields
@@ -69,6 +68,16 @@ class SymPyAssumptions(TypedDict, total=False):
     real: bool
     transcendental: bool
     zero: bool
+
+
+def _get_arguments(instance) -> tuple:
+    """Get the field values of a dataclass-like expression class instance.
+
+    Unlike :func:`dataclasses.astuple`, this does not recurse into field values that
+    are dataclass instances themselves (nested unevaluated expressions), lists, or
+    tuples.
+    """
+    return tuple(getattr(instance, field.name) for field in _get_fields(instance))
 
 
 @overload
